@@ -113,6 +113,9 @@ func HarnessPingsDisabled() {
 	v, cerr := c.Echo(context.Background(), 7)
 	verif.Assert(cerr == nil && v == 7, "idle-timer-does-not-drop-the-link-when-pings-are-off")
 	verif.Assert(l.Dials() == 1, "no-redial-when-pings-are-off")
+	// with pings off the read deadline is the only thing that can notice a silent peer: as long
+	// as a timeout is configured the library never waits for a message without one
+	verif.Assert(verif.ReadsWithoutDeadline() == 0, "never-waits-for-a-message-without-a-read-deadline")
 	closer()
 	verif.Quiesce()
 	verif.Reach("pings-disabled-done")
